@@ -46,6 +46,14 @@ def run_units(unit_names, tier, workroot, only_runs=None, timeout=None, verbose=
         outs = list(ex.map(work, jobs))
     return list(zip(jobs, outs)), infos, units
 
+def static_records(infos):
+    recs = []
+    for uname, info in infos.items():
+        for so in info.get('static_obligations', []):
+            recs.append(dict(unit=uname, run='static', kind='OBL', name=so['name'], status='SUCCESS' if so['ok'] else 'FAILURE', prop_id=None,
+                             loc={'function': so['function'], 'what': so['what']}, cls='unbounded', mode='STATIC'))
+    return recs
+
 def analyse(pairs):
     """flatten cbmc results into obligation records; raises XvError on anything inconclusive"""
     recs = []; problems = []
